@@ -82,8 +82,10 @@ def gen_cases(rng, quick):
             px[0][0] = float(fwc)
             px[-1][-1] = math.nextafter(float(fwc), math.inf)
             px[0][-1] = math.nextafter(float(fwc), -math.inf) if fwc > 0 else 0.0
-        cases.append({"kind": "fullwell", "rows": r, "cols": c, "pixel": px, "fwc": fwc,
+        cases.append({"kind": "fullwell", "rows": r, "cols": c, "pixel": px, "fwc": fwc, "dtype": "float64",
                       "via_characteristics": isinstance(fwc, int) and rng.random() < 0.3, "styles": [s1]})
+    for _ in range(n(40, 400)):
+        cases.append(gen_fullwell_far(rng))
     for _ in range(n(40, 400)):
         r, c = shape(rng)
         k = rng.random()
@@ -124,6 +126,37 @@ def gen_cases(rng, quick):
     for _ in range(n(80, 800)):
         cases.append(gen_persist(rng))
     return cases
+
+
+def gen_fullwell_far(rng):
+    """pixels orders of magnitude above the capacity, non-round values, single hot pixels, float32 frames:
+    where `charge - (charge - capacity)` and similar rewritings stop being the minimum"""
+    import numpy as np
+
+    r, c = shape(rng)
+    f32 = rng.random() < 0.35
+    if f32:
+        # capacities exactly representable in float32 (the frame's own type), so that "the capacity" is unambiguous
+        fwc = float(np.float32(rng.choice([90000.0, 100000.0, 123456.75, 1000.0, 65535.0, 99999.5, rng.uniform(1e3, 2e5)])))
+        lo, hi, hot = rng.choice([(2e8, 9e8), (1e6, 1e7), (1e5, 1e6), (1e10, 1e12)]), None, rng.choice([1e13, 4e21, 3e38, 2.0**25 * fwc * 3])
+        lo, hi = lo
+    else:
+        fwc = rng.choice([123456.7, 100000, 90000, 99999.5, 0.1, 1e-3, rng.uniform(1e3, 2e5), rng.uniform(1, 100)])
+        lo, hi = rng.choice([(5e8, 9e9), (1e6, 1e8), (1e12, 1e15), (2e5, 1e6), (1e17, 1e20)])
+        hot = rng.choice([4e21, 1e30, 1e300, 2.0**54 * float(fwc) * 3, 2.0**53 * float(fwc) + 12345.678])
+    style = rng.choice(["far-above", "far-above", "hot", "hot", "mixed"])
+    if style == "far-above":
+        px = [[rng.uniform(lo, hi) for _ in range(c)] for _ in range(r)]
+    elif style == "hot":
+        base = rng.choice([0.0, float(fwc) / 2, float(fwc)])
+        px = [[base] * c for _ in range(r)]
+        px[rng.randrange(r)][rng.randrange(c)] = hot
+    else:
+        px = [[rng.choice([rng.uniform(lo, hi), rng.uniform(0, float(fwc)), float(fwc), hot, 0.0]) for _ in range(c)] for _ in range(r)]
+    if f32:
+        px = [[float(np.float32(x)) for x in row] for row in px]
+    return {"kind": "fullwell", "rows": r, "cols": c, "pixel": px, "fwc": fwc, "dtype": "float32" if f32 else "float64",
+            "via_characteristics": False, "styles": [style + ("-f32" if f32 else "")]}
 
 
 def gen_collect(rng):
@@ -287,12 +320,12 @@ def run_impl(case):
 
             over = {"characteristics": {"full_well_capacity": case["fwc"]}} if case["via_characteristics"] else {}
             det = pyx.make_detector("CCD", r, c, **over)
-            det.pixel.array = np.array(case["pixel"], dtype=float)
+            det.pixel.array = np.array(case["pixel"], dtype=case.get("dtype", "float64"))
             arg = None if case["via_characteristics"] else case["fwc"]
             simple_full_well(det, fwc=arg)
-            once = det.pixel.array.tolist()
+            once = [[float(x) for x in row] for row in det.pixel.array]
             simple_full_well(det, fwc=arg)
-            return {"pixel": once, "twice": det.pixel.array.tolist()}
+            return {"pixel": once, "twice": [[float(x) for x in row] for row in det.pixel.array], "dtype": str(det.pixel.array.dtype)}
         if kind == "ipc":
             from pyxel.models.charge_collection import simple_ipc
             from pyxel.models.charge_collection.inter_pixel_capacitance import ipc_kernel
@@ -452,12 +485,14 @@ def property_predicate(case, impl):
                 break
     elif kind == "fullwell":
         fwc = float(case["fwc"])
-        for a, b, p in zip(flat(impl["pixel"]), flat(impl["twice"]), flat(case["pixel"])):
+        dt = case.get("dtype", "float64")
+        for a, p in zip(flat(impl["pixel"]), flat(case["pixel"])):
             if a != min(p, fwc):
-                out.append(("fullwell-min", f"charge {p!r}, capacity {fwc!r} gave {a!r}, not the minimum"))
+                out.append(("fullwell-min", f"charge {p!r}, capacity {fwc!r} ({dt} frame) gave {a!r}, not the minimum"))
                 break
+        for a, b, p in zip(flat(impl["pixel"]), flat(impl["twice"]), flat(case["pixel"])):
             if b != a:
-                out.append(("fullwell-idem", f"second application changed {a!r} into {b!r} (capacity {fwc!r})"))
+                out.append(("fullwell-idem", f"charge {p!r}, capacity {fwc!r} ({dt} frame): first application gave {a!r}, the second changed it into {b!r}"))
                 break
     elif kind == "ipc":
         if not ipc_guards(case):
@@ -611,7 +646,7 @@ def body(ck: common.Check):
     ck.count("persist-dyadic-values-not-bit-exact", INEXACT[0])
     ck.rule = ("real CCD/CMOS detectors, frames 1×1…6×6: empty, saturated, single hot pixel, sparse, random, integer and fractional; "
                "collection of charge generated as arrays and/or clusters, 1–4 steps with and without reset, expected value from the generated "
-               "quantities only / QE (sampling on & off, argument or characteristics) / full well (values at capacity ±1 ulp, applied twice) / "
+               "quantities only / QE (sampling on & off, argument or characteristics) / full well (values at capacity ±1 ulp; pixels up to 1e300 and 2^54× above non-round capacities, single hot pixels, float32 frames with float32-representable capacities; exact comparison with min(charge, capacity) per pixel, applied twice = applied once) / "
                "IPC (valid, guard-edge and invalid couplings; uniform and random frames) / CDM parallel & serial, 1–5 species, charge "
                "injection, parameters over their documented ranges, plus a strong-trapping stream (densities 1e12–1e15, 2–5 species, "
                "bright packets followed by dark register elements) / persistence simple & map-based, 1–5 species, 1–5 steps with "
